@@ -183,3 +183,11 @@ Fixpoint dedupe (seen l : list str) : list str :=
   end.
 
 Definition set_of (l : list str) : list str := dedupe [] l.
+
+(* sorted(S, key=k): stable insertion by key -- elements with equal keys keep their incoming order *)
+Fixpoint insert_by (k : str -> str) (x : str) (l : list str) : list str :=
+  match l with
+  | [] => [x]
+  | y :: r => if str_leb (k x) (k y) then x :: l else y :: insert_by k x r
+  end.
+Definition sort_by (k : str -> str) (l : list str) : list str := fold_right (insert_by k) [] l.
